@@ -203,11 +203,12 @@ impl Property for Soundness {
                 _ => crate::genr::ast::Hide::Mask(tape.u64()),
             };
             let text = crate::genr::case::print(&program, hide);
+            let files: serde_json::Map<String, Json> = crate::genr::case::import_files(&program).into_iter().map(|(n, t)| (n, json!(t))).collect();
             if tape.chance(1, 3) {
                 // near miss: the same program with one or two token-level edits
-                return Some(json!({"kind": "near-miss", "text": crate::genr::nearmiss::mutate_text(&text, tape)}));
+                return Some(json!({"kind": "near-miss", "text": crate::genr::nearmiss::mutate_text(&text, tape), "files": files}));
             }
-            return Some(json!({"kind": "program", "text": text}));
+            return Some(json!({"kind": "program", "text": text, "files": files}));
         }
         // a random cell of the binary part of the matrix
         let x = tape.below(CATALOGUE.len());
@@ -239,9 +240,13 @@ impl Property for Soundness {
                 self.check_function(&program, &[x.values, y.values], stats)
             }
             "program" | "near-miss" => {
-                let text = case["text"].as_str().unwrap_or("");
+                let text = &crate::genr::case::materialise(case["text"].as_str().unwrap_or(""), case);
+                let text = text.as_str();
                 if case["kind"].as_str() == Some("near-miss") {
-                    if text.contains("import") || text.matches(['(', '[', '{']).count() > 400 {
+                    // token edits must not turn an import of a scratch file into an import of something else
+                    let imports = text.matches("import").count();
+                    let scratch = text.matches("import \"/tmp/vcheck-imports-").count() + text.matches(&format!("import \"{}/vcheck-imports-", std::env::temp_dir().display())).count();
+                    if imports > scratch || text.matches(['(', '[', '{']).count() > 400 {
                         return Verdict::Discard("edited program outside the safe domain");
                     }
                     stats.label("near-miss programs tried");
@@ -303,6 +308,7 @@ pub fn run(session: &Session, prop: &'static Soundness) -> i32 {
     if !session.stopped() {
         session.run_tapes(prop, session.tier.of(40_000, 2_000_000), 600, 0);
     }
+    crate::genr::case::cleanup_import_dirs();
     let (rule, assumptions): (&str, &[&str]) = match prop.mode {
         Mode::Cells => ("", &[]),
         Mode::Types => (
